@@ -229,6 +229,14 @@ fn gen_rows(rng: &mut Rng, kind: &str, n: usize, d: usize) -> Mat {
                     .collect::<Vec<_>>(),
             )
         }
+        "far-offset" => {
+            // unit-scale blobs far from the origin (offset 1e2..1e8 spreads per column): squared distances
+            // must be formed from coordinate differences, not from expanded norms
+            let g = rng.us(2, 6);
+            let centres = Mat::from_fn(g, d, |_, _| rng.uni(-8.0, 8.0));
+            let off: Vec<f64> = (0..d).map(|_| rng.logu(1e2, 1e8) * if rng.bool(0.5) { 1.0 } else { -1.0 }).collect();
+            Mat::from_rows(&(0..n).map(|_| { let gi = rng.below(g); (0..d).map(|j| off[j] + centres.at(gi, j) + 0.3 * rng.normal()).collect::<Vec<f64>>() }).collect::<Vec<_>>())
+        }
         "duplicates" => {
             // m distinct continuous points, every one present, the rest exact copies
             let m = rng.us(2, 10).min(n);
@@ -544,7 +552,9 @@ struct Near {
 }
 
 /// For every row i: d²(x_i, c_label) − min_c d²(x_i, c) ≤ τ·d·(2·S + |c_label|∞ + |c_min|∞)²  (S >= |x_i|∞)
-fn nearest(rows: &Mat, cents: &[Vec<f64>], labels: &[usize], tau: f64, s_data: f64) -> Near {
+/// `relative`: the distances were computed directly from the coordinate differences (KMeans::predict): their
+/// rounding error is relative to the distance itself, not to the magnitude of the data
+fn nearest_rel(rows: &Mat, cents: &[Vec<f64>], labels: &[usize], tau: f64, s_data: f64, relative: bool) -> Near {
     let d = rows.c;
     let mut out = Near { worst: 0.0, detail: String::new(), ties: false, dmin_sum: 0.0 };
     let cn: Vec<f64> = cents.iter().map(|c| linf(c)).collect();
@@ -566,7 +576,7 @@ fn nearest(rows: &Mat, cents: &[Vec<f64>], labels: &[usize], tau: f64, s_data: f
         let excess = ds[l] - ds[jm];
         if excess > 0.0 || excess.is_nan() {
             let m = 2.0 * s_data.max(linf(x)) + cn[l] + cn[jm];
-            let tol = tau * d as f64 * m * m;
+            let tol = if relative { (tau / 64.0) * (d as f64 + 4.0) * ds[l].max(ds[jm]) + f64::MIN_POSITIVE } else { tau * d as f64 * m * m };
             let r = if excess.is_nan() {
                 f64::INFINITY
             } else if tol > 0.0 {
@@ -582,6 +592,10 @@ fn nearest(rows: &Mat, cents: &[Vec<f64>], labels: &[usize], tau: f64, s_data: f
     }
     out.dmin_sum = csum(mins.into_iter());
     out
+}
+
+fn nearest(rows: &Mat, cents: &[Vec<f64>], labels: &[usize], tau: f64, s_data: f64) -> Near {
+    nearest_rel(rows, cents, labels, tau, s_data, false)
 }
 
 // ------------------------------------------------------------------------------------ k-means fits
@@ -755,7 +769,7 @@ fn fit_case_t<T: W>(c: &mut Case, kind: &str, scaled: bool) {
                 c.check("predict.labels-valid", okr, &sg, || format!("predict returned {} labels for {} rows: {:?}", p.len(), n, p));
                 if okr {
                     let lab: Vec<usize> = p.iter().map(|v| *v as usize).collect();
-                    let nr = nearest(&dat.x, &st.cents, &lab, tn, dat.s);
+                    let nr = nearest_rel(&dat.x, &st.cents, &lab, tn, dat.s, true);
                     c.ratio("predict.nearest", nr.worst, 1.0, &sg, || nr.detail.clone());
                     c.bucket_if(nr.ties, "predict:exact-tie");
                     c.bucket_if(lab != st.y, "fit:predict(train)!=last-assignment");
@@ -804,7 +818,7 @@ fn fit_case_t<T: W>(c: &mut Case, kind: &str, scaled: bool) {
                 c.check("predict.labels-valid", okr, &sg, || format!("predict returned {} labels for {} rows: {:?}", p.len(), q.r, p));
                 if okr {
                     let lab: Vec<usize> = p.iter().map(|v| *v as usize).collect();
-                    let nr = nearest(&q, &st.cents, &lab, tn, dat.s);
+                    let nr = nearest_rel(&q, &st.cents, &lab, tn, dat.s, true);
                     c.ratio("predict.nearest", nr.worst, 1.0, &sg, || format!("(fresh rows, centroids {:?}) {}", st.cents, nr.detail));
                     c.bucket_if(nr.ties, "predict:exact-tie");
                 }
@@ -1066,6 +1080,7 @@ fit_family!(fit_collinear, "collinear", false, 0.2);
 fit_family!(fit_near_duplicates, "near-duplicates", false, 0.3);
 fit_family!(fit_scaled, "any", true, 0.2);
 fit_family!(fit_multiplicities, "multiplicities", false, 0.2);
+fit_family!(fit_far_offset, "far-offset", false, 0.0);
 
 fn assign(c: &mut Case) {
     if c.rng.bool(0.2) {
@@ -1116,6 +1131,7 @@ fn main() {
             Family::new("fit_near_duplicates", 300, 6000, fit_near_duplicates),
             Family::new("fit_scaled", 600, 18000, fit_scaled),
             Family::new("fit_multiplicities", 1500, 40000, fit_multiplicities),
+            Family::new("fit_far_offset", 600, 15000, fit_far_offset),
             Family::new("assign", 4500, 135000, assign),
             Family::new("assign_scaled", 1000, 30000, assign_scaled),
             Family::new("assign_enum", 16384, 16384, assign_enum).exhaustive(true, true),
